@@ -36,6 +36,7 @@ func plan(prop, tier string) []Part {
 			{Name: "nq", N: q(tier, 400, 8000), Chunk: 40, Procs: []int{2, 16, 4, 1}, Timeout: to},
 			{Name: "big", N: q(tier, 16, 200), Chunk: 4, Procs: []int{4, 16}, Timeout: to},
 			{Name: "err", N: q(tier, 200, 4000), Chunk: 40, Procs: []int{2, 16, 4, 1}, Timeout: to},
+			{Name: "swap", N: q(tier, 200, 4000), Chunk: 40, Procs: []int{2, 16, 4, 1}, Timeout: to},
 		}
 		if tier == "thorough" {
 			// scheduler diversity: the same families built with the other installed toolchain
@@ -51,7 +52,10 @@ func plan(prop, tier string) []Part {
 			{Name: "waiters", N: q(tier, 400, 8000), Chunk: 40, Procs: []int{16, 4, 8}, Timeout: to},
 		}
 	case "C03":
-		return []Part{{Name: "mixed", N: q(tier, 800, 16000), Chunk: 40, Procs: []int{2, 16, 4, 1}, Timeout: to}}
+		return []Part{
+			{Name: "mixed", N: q(tier, 800, 16000), Chunk: 40, Procs: []int{2, 16, 4, 1}, Timeout: to},
+			{Name: "busy", N: q(tier, 300, 6000), Chunk: 30, Procs: []int{2, 16, 4, 1}, Timeout: to},
+		}
 	case "C13":
 		return []Part{
 			{Name: "mixed", N: q(tier, 800, 16000), Chunk: 40, Procs: []int{2, 16, 4, 1}, Timeout: to},
@@ -115,6 +119,7 @@ func plan(prop, tier string) []Part {
 		return []Part{
 			{Name: "mixed", N: q(tier, 600, 12000), Chunk: 40, Procs: []int{2, 16, 4, 1}, Timeout: to},
 			{Name: "nq", N: q(tier, 200, 4000), Chunk: 40, Procs: []int{2, 16, 4, 1}, Timeout: to},
+			{Name: "swap", N: q(tier, 200, 4000), Chunk: 40, Procs: []int{2, 16, 4, 1}, Timeout: to},
 		}
 	case "C11":
 		return []Part{{Name: "mixed", N: q(tier, 1200, 24000), Chunk: 60, Procs: []int{2, 16, 4, 1}, Timeout: to}}
